@@ -68,9 +68,14 @@ def bfg_text(decls, header=''):
             srcs = '[' + ', '.join(ref_expr(r, decls) for r in d['srcs']) + ']'
             libs = '[' + ', '.join(d['libs']) + ']'
             incs = ''
-            if d['ins']:
-                incs = ', includes=[%s]' % ', '.join(
-                    r['t'] + '[1]' for r in d['ins'])
+            inc_items = [r['t'] + '[1]' for r in d['ins']]
+            if d.get('hdr'):
+                inc_items.append("header_file('h2.h')")
+            if inc_items:
+                incs = ', includes=[%s]' % ', '.join(inc_items)
+            if d.get('xdeps'):
+                incs += ', extra_deps=[%s]' % ', '.join(
+                    ref_expr({'f': '', 't': x}, decls) for x in d['xdeps'])
             if d.get('pch'):
                 incs += ', pch=%r' % ('pch_%s.h' % n)
             L.append("%s = %s(%r, %s, libs=%s%s)" % (n, fn, n, srcs, libs,
@@ -86,9 +91,13 @@ def bfg_text(decls, header=''):
             cmd = "[R, 'STEP-%s'] + [%s] + [%s]" % (
                 n, ', '.join(repr('--verif-touch=' + o) for o in outs),
                 ', '.join(ins))
-            L.append("%s = build_step(%r, cmd=%s%s)" % (
+            xd = ''
+            if d.get('xdeps'):
+                xd = ', extra_deps=[%s]' % ', '.join(
+                    ref_expr({'f': '', 't': x}, decls) for x in d['xdeps'])
+            L.append("%s = build_step(%r, cmd=%s%s%s)" % (
                 n, outs if len(outs) > 1 else outs[0], cmd,
-                ', always_outdated=True' if d['always'] else ''))
+                ', always_outdated=True' if d['always'] else '', xd))
         elif k == 'copy':
             L.append("%s = copy_file(source_file(%s%s))" % (
                 n, ref_expr(d['ins'][0], decls),
@@ -124,6 +133,7 @@ def _source_files():
         's2.c': '// deps: h1.h\nint s2(void){return 2;}\n',
         's3.c': 'int s3(void){return 3;}\n',
         'h1.h': '#define H1 1\n',
+        'h2.h': '#define H2 1\n',
         'd1.txt': 'data\n',
     }
 
@@ -220,7 +230,7 @@ class Runner:
         if f:
             path = os.path.join(self.p.src, f + (
                 '.txt' if f == 'd1' else
-                '.h' if f == 'h1' or f.startswith('pch_') else '.c'))
+                '.h' if f in ('h1', 'h2') or f.startswith('pch_') else '.c'))
         else:
             path = os.path.join(self.p.bld, self.outs[t])
         if not os.path.exists(path):
